@@ -10,7 +10,7 @@ From Coq Require Import List NArith ZArith.
 From SWH.lib Require Import Bytes Dec Hex Utf8 Percent.
 From SWH Require Import Generated.
 From SWH.model Require Import Swhid.
-From SWH.proofs Require Import SwhidTables SwhidLib PercentProofs SwhidProofs SwhidLangProofs.
+From SWH.proofs Require Import SwhidTables SwhidLib PercentProofs SwhidProofs SwhidLangProofs SwhidShapeProofs SwhidProps.
 Import ListNotations.
 Open Scope N_scope.
 
@@ -19,14 +19,14 @@ Open Scope N_scope.
 Theorem C08_core_roundtrip : forall c : core,
   In (c_ty c) SWHID_TYPES -> length (c_oid c) = 20%nat -> wf_bytes (c_oid c) = true ->
   parse_core (print_core c) = Ok c.
-Proof. intros c H1 H2 H3. apply core_roundtrip. repeat split; assumption. Qed.
+Proof. exact P_C08_core_roundtrip. Qed.
 Print Assumptions C08_core_roundtrip.
 
 (* The same for extended SWHIDs (types incl. ori, emd). *)
 Theorem C08_ext_roundtrip : forall c : core,
   In (c_ty c) EXTENDED_SWHID_TYPES -> length (c_oid c) = 20%nat -> wf_bytes (c_oid c) = true ->
   parse_ext (print_core c) = Ok c.
-Proof. intros c H1 H2 H3. apply ext_roundtrip. repeat split; assumption. Qed.
+Proof. exact P_C08_ext_roundtrip. Qed.
 Print Assumptions C08_ext_roundtrip.
 
 (* Every qualified SWHID value - any subset of the five qualifiers, ARBITRARY
@@ -93,11 +93,7 @@ Theorem C08_tables :
   TY_SNAPSHOT = S_snp /\ ANCHOR_TYPES = DOC_ANCHOR_TYPES /\
   same_set_b SWHID_QUALIFIERS DOC_KEYS = true /\ QUALIFIER_PRINT_ORDER = FIELD_KEYS /\
   SWHID_SEP = [58] /\ SWHID_CTXT_SEP = [59].
-Proof.
-  repeat split; first [exact tbl_head | exact tbl_ext_types | exact tbl_core_types | exact tbl_core_enum
-    | exact tbl_ext_enum | exact tbl_snapshot | exact tbl_anchor_types | exact tbl_qualifiers
-    | exact tbl_print_order | exact (proj1 tbl_seps) | exact (proj2 tbl_seps)].
-Qed.
+Proof. exact P_C08_tables. Qed.
 Print Assumptions C08_tables.
 
 (* Non-vacuity: a value with all five qualifiers, an origin with ';' '%' and a
